@@ -18,7 +18,7 @@ type Mutex struct {
 }
 
 func (m *Mutex) Lock() {
-	if vsched.Active() {
+	if vsched.Controlled() {
 		vsched.Block("Mutex.Lock", func() bool { return !m.held })
 	}
 	m.mu.Lock()
@@ -26,7 +26,7 @@ func (m *Mutex) Lock() {
 }
 
 func (m *Mutex) TryLock() bool {
-	if vsched.Active() {
+	if vsched.Controlled() {
 		vsched.Point("Mutex.TryLock", m)
 	}
 	if m.mu.TryLock() {
@@ -51,7 +51,7 @@ type RWMutex struct {
 }
 
 func (m *RWMutex) Lock() {
-	if vsched.Active() {
+	if vsched.Controlled() {
 		vsched.Block("RWMutex.Lock", func() bool { return !m.writer && m.readers == 0 })
 	}
 	m.mu.Lock()
@@ -64,7 +64,7 @@ func (m *RWMutex) Unlock() {
 }
 
 func (m *RWMutex) RLock() {
-	if vsched.Active() {
+	if vsched.Controlled() {
 		vsched.Block("RWMutex.RLock", func() bool { return !m.writer })
 	}
 	m.mu.RLock()
@@ -81,7 +81,7 @@ func (m *RWMutex) RUnlock() {
 }
 
 func (m *RWMutex) TryLock() bool {
-	if vsched.Active() {
+	if vsched.Controlled() {
 		vsched.Point("RWMutex.TryLock", m)
 	}
 	if m.mu.TryLock() {
@@ -92,7 +92,7 @@ func (m *RWMutex) TryLock() bool {
 }
 
 func (m *RWMutex) TryRLock() bool {
-	if vsched.Active() {
+	if vsched.Controlled() {
 		vsched.Point("RWMutex.TryRLock", m)
 	}
 	if m.mu.TryRLock() {
@@ -120,7 +120,7 @@ type WaitGroup struct {
 }
 
 func (w *WaitGroup) Add(d int) {
-	if vsched.Active() {
+	if vsched.Controlled() {
 		vsched.Point("WaitGroup.Add", w)
 	}
 	w.st.Lock()
@@ -132,7 +132,7 @@ func (w *WaitGroup) Add(d int) {
 func (w *WaitGroup) Done() { w.Add(-1) }
 
 func (w *WaitGroup) Wait() {
-	if vsched.Active() {
+	if vsched.Controlled() {
 		vsched.Block("WaitGroup.Wait", func() bool { return w.n == 0 })
 		return
 	}
@@ -147,7 +147,7 @@ type Once struct {
 }
 
 func (o *Once) Do(f func()) {
-	if vsched.Active() {
+	if vsched.Controlled() {
 		vsched.Point("Once.Do", o)
 	}
 	o.m.Lock()
@@ -163,6 +163,7 @@ func (o *Once) Do(f func()) {
 type Cond struct {
 	L       Locker
 	c       *stdsync.Cond
+	st      stdsync.Mutex
 	waiters []*condWaiter
 }
 
@@ -171,40 +172,43 @@ type condWaiter struct{ signaled bool }
 func NewCond(l Locker) *Cond { return &Cond{L: l, c: stdsync.NewCond(l)} }
 
 func (c *Cond) Wait() {
-	if !vsched.Active() {
+	if !vsched.Controlled() {
 		c.c.Wait()
 		return
 	}
 	w := &condWaiter{}
+	c.st.Lock()
 	c.waiters = append(c.waiters, w)
+	c.st.Unlock()
 	c.L.Unlock()
-	vsched.Block("Cond.Wait", func() bool { return w.signaled })
+	vsched.Block("Cond.Wait", func() bool { c.st.Lock(); defer c.st.Unlock(); return w.signaled })
 	c.L.Lock()
 }
 
+// Signal / Broadcast always wake controlled waiters too (the caller may be a goroutine outside the scheduler).
 func (c *Cond) Signal() {
-	if !vsched.Active() {
-		c.c.Signal()
-		return
+	if vsched.Controlled() {
+		vsched.Point("Cond.Signal", c)
 	}
-	vsched.Point("Cond.Signal", c)
+	c.st.Lock()
 	if len(c.waiters) > 0 {
 		c.waiters[0].signaled = true
 		c.waiters = c.waiters[1:]
 	}
+	c.st.Unlock()
 	c.c.Signal()
 }
 
 func (c *Cond) Broadcast() {
-	if !vsched.Active() {
-		c.c.Broadcast()
-		return
+	if vsched.Controlled() {
+		vsched.Point("Cond.Broadcast", c)
 	}
-	vsched.Point("Cond.Broadcast", c)
+	c.st.Lock()
 	for _, w := range c.waiters {
 		w.signaled = true
 	}
 	c.waiters = nil
+	c.st.Unlock()
 	c.c.Broadcast()
 }
 
@@ -213,19 +217,19 @@ func (c *Cond) Broadcast() {
 type Map struct{ m stdsync.Map }
 
 func (m *Map) pt(op string) {
-	if vsched.Active() {
+	if vsched.Controlled() {
 		vsched.Point("Map."+op, m)
 	}
 }
-func (m *Map) Load(k any) (any, bool)               { m.pt("Load"); return m.m.Load(k) }
-func (m *Map) Store(k, v any)                       { m.pt("Store"); m.m.Store(k, v) }
-func (m *Map) LoadOrStore(k, v any) (any, bool)     { m.pt("LoadOrStore"); return m.m.LoadOrStore(k, v) }
-func (m *Map) LoadAndDelete(k any) (any, bool)      { m.pt("LoadAndDelete"); return m.m.LoadAndDelete(k) }
-func (m *Map) Delete(k any)                         { m.pt("Delete"); m.m.Delete(k) }
-func (m *Map) Swap(k, v any) (any, bool)            { m.pt("Swap"); return m.m.Swap(k, v) }
-func (m *Map) CompareAndSwap(k, o, n any) bool      { m.pt("CAS"); return m.m.CompareAndSwap(k, o, n) }
-func (m *Map) CompareAndDelete(k, o any) bool       { m.pt("CAD"); return m.m.CompareAndDelete(k, o) }
-func (m *Map) Range(f func(k, v any) bool)          { m.pt("Range"); m.m.Range(f) }
+func (m *Map) Load(k any) (any, bool)           { m.pt("Load"); return m.m.Load(k) }
+func (m *Map) Store(k, v any)                   { m.pt("Store"); m.m.Store(k, v) }
+func (m *Map) LoadOrStore(k, v any) (any, bool) { m.pt("LoadOrStore"); return m.m.LoadOrStore(k, v) }
+func (m *Map) LoadAndDelete(k any) (any, bool)  { m.pt("LoadAndDelete"); return m.m.LoadAndDelete(k) }
+func (m *Map) Delete(k any)                     { m.pt("Delete"); m.m.Delete(k) }
+func (m *Map) Swap(k, v any) (any, bool)        { m.pt("Swap"); return m.m.Swap(k, v) }
+func (m *Map) CompareAndSwap(k, o, n any) bool  { m.pt("CAS"); return m.m.CompareAndSwap(k, o, n) }
+func (m *Map) CompareAndDelete(k, o any) bool   { m.pt("CAD"); return m.m.CompareAndDelete(k, o) }
+func (m *Map) Range(f func(k, v any) bool)      { m.pt("Range"); m.m.Range(f) }
 
 // Pool: deterministic LIFO free list (sync.Pool's per-P caches would be un-owned nondeterminism) ----
 
